@@ -203,8 +203,12 @@ func (w *World) Flush() {
 }
 
 func (w *World) Restart() {
-	w.Flush()
-	vrt.Quiesce()
+	// a clean shutdown: a client that has unstable writes outstanding COMMITs first (the flush); everything
+	// acknowledged with stable semantics must survive the restart without any further flush
+	// (no quiescence first either: the journal's logger gets no extra turn to write out what a request left behind)
+	if w.Pending {
+		w.Flush()
+	}
 	w.Srv.ShutdownNfs()
 	w.Srv = nfs.MakeNfs(w.Disk)
 	w.Srv.Unstable = w.Unstable
